@@ -24,7 +24,7 @@
 (* unreadable | dir | (absent = missing).  Plain-data trees are the tagged *)
 (* values of CincoValues (a map is an ordered list of <<key, value>>).     *)
 (* File names are character sequences; "$" stands for the scratch root,    *)
-(* the process works in $/W.                                               *)
+(* the process works in $/W and its home directory ("~") is $/H.           *)
 (*                                                                         *)
 (* The property is stated separately from these operators: C18_MergeLaw    *)
 (* (per leaf path), C18_Pure, C18_Equivalent (against the declarative      *)
@@ -111,22 +111,24 @@ LawMerge(b, c) ==
 ---------------------------------------------------------------------------
 (* file names *)
 Cwd == <<"$", "/", "W">>
-IsAbs(s) == s # <<>> /\ Head(s) = "$"
+\* "$" is the scratch root; "^" stands for the directory above it (reached with ".."), where
+\* nothing of ours exists
+IsAbs(s) == s # <<>> /\ Head(s) \in {"$", "^"}
 RECURSIVE JoinComps(_)
-JoinComps(cs) == IF cs = <<>> THEN <<"/">>
-                 ELSE IF Len(cs) = 1 THEN cs[1] ELSE cs[1] \o <<"/">> \o JoinComps(Tail(cs))
+JoinComps(cs) == IF Len(cs) = 1 THEN cs[1] ELSE cs[1] \o <<"/">> \o JoinComps(Tail(cs))
 RECURSIVE NormAcc(_, _)
 NormAcc(cs, acc) ==
     IF cs = <<>> THEN acc
     ELSE LET c == Head(cs) IN
          IF c = <<>> \/ c = <<".">> THEN NormAcc(Tail(cs), acc)
          ELSE IF c = <<".", ".">>
-              \* ".." may climb out of the scratch root: the result then no longer starts with "$"
-              \* and names nothing in the file system (nothing of ours exists out there)
-              THEN NormAcc(Tail(cs), IF acc # <<>> THEN SubSeq(acc, 1, Len(acc) - 1) ELSE acc)
+              THEN NormAcc(Tail(cs), IF Len(acc) > 1 THEN SubSeq(acc, 1, Len(acc) - 1) ELSE << <<"^">> >>)
          ELSE NormAcc(Tail(cs), Append(acc, c))
 \* os.path.abspath of an absolute name (below the scratch root)
 NormPath(s) == JoinComps(NormAcc(Split(s, "/"), <<>>))
+\* os.path.expanduser: a leading "~" is the home directory ($HOME = $/H); "~user" is not modelled
+Home == <<"$", "/", "H">>
+Expand(s) == IF s # <<>> /\ Head(s) = "~" THEN Home \o Tail(s) ELSE s
 \* the file the operating system reaches for a name the process uses
 OsPath(s) == IF s = <<>> THEN <<>>
              ELSE NormPath(IF IsAbs(s) THEN s ELSE Cwd \o <<"/">> \o s)
@@ -159,7 +161,8 @@ ValidatePath(f, v, fs) ==
     ELSE IF ~IsStr(v) THEN PathRes(FALSE, NoneV, <<>>, "notstr") \* "value must be a string"
     ELSE IF v.s = <<>> THEN PathRes(TRUE, v, <<>>, "empty")      \* `if not value: return value`
     ELSE LET r == IF ~IsAbs(v.s) /\ f.startdir # <<>>
-                  THEN NormPath(f.startdir \o <<"/">> \o v.s)   \* abspath(join(startdir, value))
+                  \* abspath(expanduser(join(startdir, value)))
+                  THEN NormPath(Expand(f.startdir \o <<"/">> \o v.s))
                   ELSE v.s
              e == FsGet(fs, OsPath(r))
          IN  IF IsFileEntry(e) THEN PathRes(TRUE, StrV(r), OsPath(r), e.k)
@@ -293,7 +296,7 @@ Good(t) == [ok |-> TRUE, tree |-> t]
 Bad     == [ok |-> FALSE, tree |-> NoneV]
 NamedFile(f, v) ==
     NormPath(IF IsAbs(v.s) THEN v.s
-             ELSE (IF f.startdir # <<>> THEN f.startdir ELSE Cwd) \o <<"/">> \o v.s)
+             ELSE (IF f.startdir # <<>> THEN Expand(f.startdir) ELSE Cwd) \o <<"/">> \o v.s)
 Named(f, v, fs) ==
     IF ~IsStr(v) \/ v.s = <<>> THEN Bad
     ELSE LET e == FsGet(fs, NamedFile(f, v)) IN
